@@ -43,6 +43,8 @@ val rev : 'a1 list -> 'a1 list
 
 val map : ('a1 -> 'a2) -> 'a1 list -> 'a2 list
 
+val fold_right : ('a2 -> 'a1 -> 'a1) -> 'a1 -> 'a2 list -> 'a1
+
 val existsb : ('a1 -> bool) -> 'a1 list -> bool
 
 val forallb : ('a1 -> bool) -> 'a1 list -> bool
@@ -216,13 +218,17 @@ type stmt =
 | SPop
 | SFound of event * z
 | SAddCur of z
-| SIf of cond * stmt list * stmt list
+| SIf of cond * stmt * stmt
+| SSeq of stmt * stmt
+| SSkip
 | SOracle of okind
 | SRetNil
 | SRetErr of string * string
 | SRetErrBasic of string
 | SRetCall of state
 | SRetRedispatch
+
+val block : stmt list -> stmt
 
 val n_eqb_list : n list -> n list -> bool
 
@@ -348,19 +354,15 @@ val eval_cond : cond -> cond -> bytes -> conf -> byte -> cond -> bool option
 
 val mk_unexpected : bytes -> conf -> string -> string -> serr
 
-val exec_stmt :
+val exec :
   cond -> cond -> bytes -> (okind -> z -> olen_res) -> byte -> stmt -> conf
   -> flow
 
-val exec_list :
-  cond -> cond -> bytes -> (okind -> z -> olen_res) -> byte -> stmt list ->
-  conf -> flow
-
-val body_of : (string * stmt list) list -> state -> stmt list option
+val body_of : (string * stmt) list -> state -> stmt option
 
 val run_step :
-  (string * stmt list) list -> cond -> cond -> bytes -> (okind -> z ->
-  olen_res) -> nat -> state -> byte -> conf -> conf res
+  (string * stmt) list -> cond -> cond -> bytes -> (okind -> z -> olen_res)
+  -> nat -> state -> byte -> conf -> conf res
 
 val pair_ok : event -> event -> bool
 
@@ -373,14 +375,14 @@ val drain : nat -> conf -> (lexeme option * conf) res
 val step_fuel : nat
 
 val next_loop :
-  (string * stmt list) list -> cond -> cond -> bytes -> (okind -> z ->
-  olen_res) -> nat -> conf -> (lexeme option * conf) res
+  (string * stmt) list -> cond -> cond -> bytes -> (okind -> z -> olen_res)
+  -> nat -> conf -> (lexeme option * conf) res
 
 val loop_fuel : bytes -> nat
 
 val next :
-  (string * stmt list) list -> cond -> cond -> bytes -> (okind -> z ->
-  olen_res) -> conf -> (lexeme option * conf) res
+  (string * stmt) list -> cond -> cond -> bytes -> (okind -> z -> olen_res)
+  -> conf -> (lexeme option * conf) res
 
 type scan_end =
 | EndOk
@@ -728,7 +730,7 @@ val st_stateVersi : state
 
 val st_stateVersio : state
 
-val prog_table : (string * stmt list) list
+val prog_table : (string * stmt) list
 
 val is_newline_cond : cond
 
